@@ -12,7 +12,7 @@
 From Perf Require Import Base.Bytes Base.B64 Base.Utf8 Base.Unicode
   Model.Name Model.Extract Model.Units Model.Reader Model.Files Model.Writer
   Proofs.ReaderSlots Proofs.Reader Proofs.WriterMap Proofs.WriterLines Proofs.WriterClean Proofs.Writer
-  Proofs.ReaderFields Proofs.WriterText.
+  Proofs.ReaderFields Proofs.WriterText Model.RoundTripSpec Proofs.RoundTripSpec.
 Local Open Scope N_scope.
 
 Definition colon_ok (is_space is_upper : N -> bool) : Prop := is_space 58 = false /\ is_upper 58 = false.
@@ -45,7 +45,22 @@ Print Assumptions C01_writer_belief_invariant.
     metadata record ([WFunit]): unit = Tidy of the written unit, written unit
     and key=value are fields, key non-empty without '='; its (unit, key) is new
     with respect to [seen] and to the earlier records of the stream.
-    All conditions are on the records, none on the output. *)
+    All conditions are on the records, none on the output.
+
+    What WFhist excludes is NOT silently out of scope: the property quantifies
+    over every API-built stream, so each excluded class that the real writer
+    and reader mishandle is a recorded known finding with its own refutation
+    below and its own narrow relaxed judge (Corr/RunC01.v [known_ok]): a file
+    value ending in CR (C01_cr_refuted), starting with a blank
+    (C01_leading_blank_refuted), containing LF (C01_lf_refuted), empty
+    (C01_empty_value_refuted); a file key that is no key
+    (C01_bad_key_refuted); no measurements (C01_no_measurements_refuted); white
+    space in the name (C01_name_space_refuted); a repeated (unit, key)
+    (C01_repeated_unit_refuted); on the text route a re-printed line over the
+    scanner's limit (C01_long_line_refuted).  The harness generates every one
+    of these classes and the strict judge fails on them.  Not generated (outside
+    both): keys containing ':' or LF, names containing LF, units that are not
+    fields, configuration lines over 64 KiB. *)
 
 (** every such stream (hence every history of configuration additions, changes,
     deletions, re-additions and file<->internal flips between consecutive
@@ -222,6 +237,71 @@ Theorem C01_cr_refuted :
     end.
 Proof. exists (ex_res [mkCfg (bs "k") (hx "760d") true]). vm_compute. discriminate. Qed.
 Print Assumptions C01_cr_refuted.
+
+(** ** further records the line format cannot express (all reachable only
+    through the API; each a recorded known finding, judged narrowly by
+    Corr/RunC01.v [known_ok] with the declarative Model/RoundTripSpec.v) *)
+Definition ex_read (recs : list record) : list record :=
+  fst (fst (read_file go_is_space go_is_lower go_is_upper ex_atoi ex_pf rs_empty (bs "f") [] (emit ex_fmt recs))).
+Definition ex_file_cfg (recs : list record) : list (list (bytes * bytes)) :=
+  map (fun rec => match rec with
+                  | RRes r => map (fun c => (c_key c, c_val c)) (filter c_file (r_cfg r))
+                  | _ => [] end) recs.
+
+(** C01_value_starts_with_blank: " v" comes back as "v" *)
+Theorem C01_leading_blank_refuted :
+  ex_file_cfg (ex_read [RRes (ex_res [mkCfg (bs "k") (bs " v") true])]) = [[(bs "k", bs "v")]].
+Proof. vm_compute. reflexivity. Qed.
+Print Assumptions C01_leading_blank_refuted.
+
+(** C01_value_contains_LF: the value is cut at the LF and the rest is read as a
+    line of its own - here it sets file key j, which the record never had *)
+Theorem C01_lf_refuted :
+  ex_file_cfg (ex_read [RRes (ex_res [mkCfg (bs "k") (bs "a" ++ [x0a] ++ bs "j: injected") true])])
+  = [[(bs "k", bs "a"); (bs "j", bs "injected")]].
+Proof. vm_compute. reflexivity. Qed.
+Print Assumptions C01_lf_refuted.
+
+(** C01_empty_file_value: a present file key with an empty value is absent on reading back *)
+Theorem C01_empty_value_refuted :
+  ex_file_cfg (ex_read [RRes (ex_res [mkCfg (bs "k") (bs "v") true]); RRes (ex_res [mkCfg (bs "k") [] true])])
+  = [[(bs "k", bs "v")]; []].
+Proof. vm_compute. reflexivity. Qed.
+Print Assumptions C01_empty_value_refuted.
+
+(** C01_file_key_not_a_key: "Key: v" is no configuration line *)
+Theorem C01_bad_key_refuted :
+  ex_file_cfg (ex_read [RRes (ex_res [mkCfg (bs "Key") (bs "v") true])]) = [[]].
+Proof. vm_compute. reflexivity. Qed.
+Print Assumptions C01_bad_key_refuted.
+
+(** C01_result_without_measurements: "BenchmarkX 1" is a syntax error *)
+Theorem C01_no_measurements_refuted :
+  ex_read [RRes (mkResult [] (bs "X") 1 [] [] 0)] = [RErr (bs "f") 1 EMissingMeas].
+Proof. vm_compute. reflexivity. Qed.
+Print Assumptions C01_no_measurements_refuted.
+
+(** C01_name_with_white_space: "Benchmarka b 1 1 ns/op" is a syntax error *)
+Theorem C01_name_space_refuted :
+  ex_read [RRes (mkResult [] (bs "a b") 1 [ex_val] [] 0)] = [RErr (bs "f") 1 EBadIters].
+Proof. vm_compute. reflexivity. Qed.
+Print Assumptions C01_name_space_refuted.
+
+(** C01_repeated_unit_metadata: the same record written twice is read once *)
+Theorem C01_repeated_unit_refuted :
+  length (ex_read [RUnit ex_unit; RUnit ex_unit]) = 1%nat.
+Proof. vm_compute. reflexivity. Qed.
+Print Assumptions C01_repeated_unit_refuted.
+
+(** the relaxed judge changes nothing for a value the format can carry
+    (non-empty, no leading blank/tab, no LF, no final CR): [carried_value] is
+    the identity there, so known_ok differs from prop_ok on inexpressible
+    records only *)
+Theorem C01_carried_value_id : forall v,
+  v <> [] -> (forall c r, v = c :: r -> c <> x20 /\ c <> x09) -> ~ In x0a v -> (forall p, v <> p ++ [x0d]) ->
+  carried_value v = v.
+Proof. exact carried_value_id. Qed.
+Print Assumptions C01_carried_value_id.
 
 (** a two-step history: file key flips to internal, another key is deleted *)
 Example C01_example :
